@@ -264,44 +264,18 @@ def run(prog, rep, tier, repo):
     rep.floor('inverse', 2, 'invert_matrix, Matrix::inv')
     # ------------------------------------------------------------------ D7 tolerance of the routing predicate
     # Cholesky reads one triangle only; a symmetry test with tolerance T therefore replaces A by a matrix up to T away.
-    from ..tol import tolerance_verdict
-    nt = 0
-    preds = [U + 'is_positive_definite']
-    seen = set()
-    while preds:
-        k = preds.pop()
-        if k in seen:
-            continue
-        seen.add(k)
-        f = prog.func(k)
-        if f is None:
-            continue
-        for c in f.calls():
-            if c.path and c.path.startswith('linalg::') and prog.func(c.path) is not None and pdb.bodies[c.path].local_ty(0) == 'bool':
-                preds.append(c.path)
-        rep.touch(k)
-        data_roots = [('arg', i + 1, f.names.get(i + 1)) for i in range(f.body.arg_count)]
-
-        def is_datum(t, roots=data_roots):
-            if tag(t) != 'index':
-                return False
-            r = t[1]
-            while tag(r) in ('field', 'call') and (tag(r) == 'field' or (r[2] and len(r[2]) >= 1)):
-                r = r[1] if tag(r) == 'field' else r[2][0]
-            return r in roots
-        for s_ in f.stores():
-            if not (tag(s_.target) == 'local' and s_.target[1] == 0 and s_.value == ('const', 'bool', False)):
-                continue
-            for cond, val in f.guards().get(s_.bb, []):
-                reads = set(x for x in subterms(cond) if is_datum(x))
-                if len(reads) < 2 or tag(cond) != 'bin' or cond[4] not in ('f64', 'f32'):
-                    continue
-                nt += 1
-                key = 'routing-tolerance:%s' % short(k)
-                ok, text = tolerance_verdict(cond, val, is_datum)
-                if ok is None:
-                    rep.undecided('routing-tolerance', key, text)
-                else:
-                    (rep.ok if ok else rep.viol)('routing-tolerance', key, text, site_of(s_.span))
+    from ..tol import check_tolerances
+    check_tolerances(prog, rep, 'routing-tolerance', [U + 'is_positive_definite'])
     rep.floor('routing-tolerance', 1, 'symmetry test behind is_positive_definite')
+
+    # ------------------------------------------------------------------ D8 no scale-dependent threshold inside a solver
+    # "every nonsingular A": a solver that branches on |x| < constant treats well-conditioned but small-scaled systems differently.
+    from ..tol import check_scale_guards
+    solvers = [k for k in pdb.bodies if k.startswith('<%s as linalg::array::matrix::Solve<' % M)] + [
+        M + '::inv', M + '::forward_substitution', M + '::backward_substitution', D + 'cholesky::cholesky_solve', D + 'lu::lu_solve',
+        D + 'substitution::forward_substitution', D + 'substitution::backward_substitution', U + 'invert_matrix', U + 'solve_sys', U + 'solve']
+    nsg = check_scale_guards(prog, rep, 'solver-threshold', sorted(solvers))
+    rep.ok('solver-threshold', 'solver-threshold:scan', '%d solver bodies scanned, %d floating-point branches examined' % (len(solvers), nsg))
+    if len(solvers) < 16:
+        rep.viol('solver-threshold', 'solver-threshold:anchors', 'only %d of 16 solver bodies found' % len(solvers))
     return {}
